@@ -130,8 +130,11 @@ theorem processLogon_hold (env : Env) (m : Msg) (c : Conn) (hI : OutInv c) (hl :
   repeat' hstep
   all_goals try exact logonTail_hold _ c hI hl
   · exact Hold.seq (disconnect_hold env _ _ c hI) (fun _ c1 hI1 _ => by repeat' hstep)
-  · refine Hold.seq (sendMsg_hold env _ c hI ?_) ?_
+  · -- the reply, and (fix a9dbd9f) `disconnect` + re-raise when it cannot be sent
+    refine Hold.seq (Hold.tryCatch (sendMsg_hold env _ c hI ?_) ?_) ?_
     · exact isNew_mk' _ _ rfl rfl
+    · intro ex c1 hI1
+      exact Hold.seq (disconnect_hold env _ _ c1 hI1) (fun _ c2 hI2 _ => Hold.throw hI2)
     intro _ c1 hI1 h1
     have hl1 : Live c1 := by unfold Live; rw [h1]; exact afterGate_alive c hl
     repeat' hstep
